@@ -1782,6 +1782,7 @@ IW_INLINE WUR iwrc _sblk_sync(struct iwlctx *lx, struct sblk *sblk) {
 IW_INLINE WUR iwrc _sblk_sync_and_release_mm(struct iwlctx *lx, struct sblk **sblkp, uint8_t *mm) {
   struct sblk *sblk = *sblkp;
   if (lx->destroy_addr && (lx->destroy_addr == sblk->addr)) {
+    _sblk_release(lx, sblkp); // nothing to write, but the reference must not outlive the destroyed block
     return 0;
   }
   iwrc rc = 0;
